@@ -338,7 +338,12 @@ func (this *Hnsw) searchLevel(query math.Vector, entrypoint *hnswVertex, ef, lev
 
 	pqItem := utils.NewPriorityQueueItem(entrypointDistance, entrypoint)
 	candidateVertices := utils.NewMinPriorityQueue(pqItem)
-	resultVertices := utils.NewMaxPriorityQueue(pqItem)
+	resultVertices := utils.NewMaxPriorityQueue()
+	if !entrypoint.isDeleted() {
+		// A reader can find the entry point tombstoned (its removal has not handed over yet):
+		// it is then only a starting point
+		resultVertices.Push(pqItem)
+	}
 
 	visitedVertices := make(map[*hnswVertex]struct{}, ef*this.config.mMax0)
 	visitedVertices[entrypoint] = struct{}{}
@@ -346,7 +351,10 @@ func (this *Hnsw) searchLevel(query math.Vector, entrypoint *hnswVertex, ef, lev
 	for candidateVertices.Len() > 0 {
 		candidateItem := candidateVertices.Pop()
 		candidate := candidateItem.Value().(*hnswVertex)
-		lowerBound := resultVertices.Peek().Priority()
+		lowerBound := float32(math.MaxFloat)
+		if resultVertices.Len() > 0 {
+			lowerBound = resultVertices.Peek().Priority()
+		}
 
 		if candidateItem.Priority() > lowerBound {
 			break
